@@ -51,6 +51,24 @@ def _probe(a):
     return a
 
 
+def _named_classes_resolve(term):
+    """The store knows classes by (module, qualified name): a type survives it only if those names lead back to the same class objects."""
+    import importlib
+
+    for node in RT.walk(term):
+        if node[0] == "cls" and isinstance(node[1], type):
+            c = node[1]
+            try:
+                obj = importlib.import_module(c.__module__)
+                for part in c.__qualname__.split("."):
+                    obj = getattr(obj, part)
+            except Exception:
+                return False
+            if obj is not c:
+                return False
+    return True
+
+
 def judge_case(res, exprs, k, rng, hits=None):
     """One multiset x one k through the real get_type/shrink_types and the three oracles.
     res: dict prop -> core.Res."""
@@ -144,6 +162,8 @@ def judge_case(res, exprs, k, rng, hits=None):
                 from monkeytype.encoding import CallTraceRow
 
                 try:
+                    if not _named_classes_resolve(t3):
+                        raise LookupError("a class of this type is not what its module and qualified name lead to")
                     dec = [CallTraceRow.from_trace(tr).to_trace() for tr in traces]
                 except Exception:
                     r4.count("store_round_trip_not_encodable")
